@@ -361,3 +361,30 @@ func ZZC19Nav(textIdx string) {
 	}
 	zzvrt.Reach("c19-nav-end")
 }
+
+// ZZC19Versions: a history on one document whose version numbers are given by the editor
+// (any integers: an editor restarts its numbering when a file is closed and opened again).
+// After open(v1, text A), change(v2, text B), open(v3, text C) the server answers from C and
+// publishes C's diagnostics, whatever v1, v2, v3 are.
+func ZZC19Versions(a, b, c string) {
+	ta, tb, tc := zzTexts[int(a[0]-'0')], zzTexts[int(b[0]-'0')], zzTexts[int(c[0]-'0')]
+	v1 := int32(zzvrt.Int("v1", 0, 1<<20))
+	v2 := int32(zzvrt.Int("v2", 0, 1<<20))
+	v3 := int32(zzvrt.Int("v3", 0, 1<<20))
+	uri := zzURIs[0]
+	state := InitialState()
+	var last []PublishDiagnosticsParams
+	step := func(req jsonrpc2.Request) {
+		last = zzNotifications(func() { Handle(req, &state) })
+	}
+	step(zzRequest("textDocument/didOpen", DidOpenTextDocumentParams{TextDocument: TextDocumentItem{URI: uri, LanguageID: "numscript", Version: v1, Text: ta}}))
+	step(zzRequest("textDocument/didChange", DidChangeTextDocumentParams{
+		TextDocument:   VersionedTextDocumentIdentifier{TextDocumentIdentifier: TextDocumentIdentifier{URI: uri}, Version: v2},
+		ContentChanges: []TextDocumentContentChangeEvent{{Text: tb}}}))
+	step(zzRequest("textDocument/didOpen", DidOpenTextDocumentParams{TextDocument: TextDocumentItem{URI: uri, LanguageID: "numscript", Version: v3, Text: tc}}))
+	doc, ok := state.documents[uri]
+	zzvrt.Assert(ok && doc.Text == tc, "C19:stored-text-is-the-latest")
+	fresh := analysis.CheckSource(tc)
+	zzvrt.Assert(len(last) == 1 && last[0].URI == uri && len(last[0].Diagnostics) == len(fresh.Diagnostics), "C19:published-diagnostics-are-the-fresh-analysis-of-the-latest-text")
+	zzvrt.Reach("c19-versions-end")
+}
